@@ -260,14 +260,15 @@ func c04Stems(r *run.Run) {
 	}
 	counts = append(counts, 71, 72, 73, 95, 96)
 	r.Explore(explore.Config{Name: "C04.stems-masks"},
-		"stem hints: every count 0..50 and {71,72,73,95,96} split between horizontal and vertical, with a hint mask first / later / absent, counter masks, glyph width equal / not equal to the default width",
+		"stem hints: every count 0..50 and {71,72,73,95,96} split between horizontal and vertical, with a hint mask first / later / absent, counter masks (one, or three in a row), two hint masks in a row, glyph width equal / not equal to the default width",
 		func(c *explore.Ctx) {
 			nh := counts[c.Choose(len(counts), "hstems")]
 			nv := counts[c.Choose(len(counts), "vstems")]
 			if nh+nv > 96 {
 				c.Skip("more than 96 stems")
 			}
-			mask := c.Choose(4, "mask placement") // none, first, later, cntr+hint
+			// none, first, later, cntr+hint, several counter masks then a hint mask, two hint masks in a row later
+			mask := c.Choose(6, "mask placement")
 			ownWidth := c.Bool("own width")
 			w := 500.0
 			if ownWidth {
@@ -291,16 +292,23 @@ func c04Stems(r *run.Run) {
 			if nb == 0 && mask != 0 {
 				c.Skip("mask without stems")
 			}
-			if mask == 3 {
+			if mask == 3 || mask == 4 {
 				g.Cmds = append(g.Cmds, cff.GlyphOp{Op: cff.OpCntrMask, Args: mk(1)})
 			}
-			if mask == 1 || mask == 3 {
+			if mask == 4 {
+				// every cntrmask declares a further counter group
+				g.Cmds = append(g.Cmds, cff.GlyphOp{Op: cff.OpCntrMask, Args: mk(3)}, cff.GlyphOp{Op: cff.OpCntrMask, Args: mk(4)})
+			}
+			if mask == 1 || mask == 3 || mask == 4 {
 				g.Cmds = append(g.Cmds, cff.GlyphOp{Op: cff.OpHintMask, Args: mk(0)})
 			}
 			g.MoveTo(0, 0)
 			g.LineTo(100, 0)
-			if mask == 2 {
+			if mask == 2 || mask == 5 {
 				g.Cmds = append(g.Cmds, cff.GlyphOp{Op: cff.OpHintMask, Args: mk(2)})
+			}
+			if mask == 5 {
+				g.Cmds = append(g.Cmds, cff.GlyphOp{Op: cff.OpHintMask, Args: mk(5)})
 			}
 			g.LineTo(100, 100)
 			c.Sample(func() any { return map[string]any{"hstems": nh, "vstems": nv, "mask": mask, "own_width": ownWidth} })
